@@ -49,7 +49,7 @@ CLAIMS = {
          "flush precedes every underlying write on every path and is guarded by !hasWritten, which is set before any WriteState; only setState appends, to the queue of its own family; queues are delivered unmodified; every Put/Del/DelAll API call queues its event on every returning path; the default responders write through the ResponseWriter on every successful completion",
          "Hijack/ResponseController paths"),
  'C12': ("must-pass-through consume+save before issuance, removal-at-matched-index shape, normalised comparison for the OTP limit",
-         "OTP / recovery code / SMS code / TOTP last-code consumption is saved (or deleted) before the session is written; the matched OTP is the one removed; at most maxOTPs",
+         "OTP / recovery code / SMS code / TOTP last-code consumption is saved (or deleted) before the session is written; the matched OTP is the one removed; at most maxOTPs; the TOTP replay guard compares and records the code in the form the validator validates it (the validator's trimming is read from the dependency's source)",
          "that hashes match only issued values"),
  'C13': ("route-table extraction (partial evaluation of Setup), edge-dominance proof gates, session pairing, presence rule",
          "every enrol/remove/regenerate route is behind the full-auth middleware (and the e-mail wrap when required); enabling/removing is gated by a code check; a recovery code cannot stand in for the enrolment code; e-mail authorisation requires a present token and is spent on completion; current user precedes pending PID; Localizef falls back to default texts",
